@@ -128,6 +128,9 @@ def texts(tier):
     for body in (u'\xe9' * 9000, u'\u4e2d' * 6000, u'a' + u'\xe9\u4e2d' * 5000,
                  u'Traceback (most recent call last):\n' + u''.join(u'  File "/proj/caf\xe9/m\xf6dule_%d.py", line %d, in f\xfcnction\n    x = y\n' % (k, k) for k in range(400))):
         yield 'fixed', body + u'\nValueError: the very end \xe9\u4e2d ZQTAIL'
+    # text with lone surrogates: what a traceback through a surrogate-escaped file name looks like
+    yield 'fixed', u'\ud800 lone surrogate'
+    yield 'fixed', u'Traceback (most recent call last):\n  File "/x/caf\udce9.py", line 1, in <module>\n    import nothing\nImportError: no module caf\udce9'
     for t in ['', ' ', '\n', '\n\n', 'no traceback here', 'a\x00b', '\x01\x02\x7f', u'\xe9' * 50, 'x' * 20000, 'Traceback (most recent call last):',
               'Traceback (most recent call last):\n', 'ValueError: x', '  File "a.py", line 1\n    x = (\n        ^\nSyntaxError: invalid syntax',
               '{', '{tb_str}', '{#parsed_err}{exc_type}{/parsed_err}', '{@eq key=1 value=1}x{/eq}', '{>flaw_tmpl/}', '{tb_str|s}', '{~lb}',
@@ -140,7 +143,7 @@ def texts(tier):
 def file_lists():
     big = ['/proj/module_%03d.py' % i for i in range(200)]
     markup = ['/proj/<b>bold</b>.py', '/proj/a&b "q".py', '/proj/{tb_str}{#x}.py', os.path.join(os.path.dirname(os.__file__), '<i>stdlib</i>.py')]
-    relative = ['example.py', 'conf/<site>.yaml', '', './x.py', '../up.py']
+    relative = ['example.py', 'conf/<site>.yaml', '', './x.py', '../up.py', u'/proj/caf\udce9.py']
     return [('none', None), ('empty', []), ('long', big), ('markup', markup), ('plain', ['/proj/app.py', '/proj/util.py']),
             ('relative', relative)]
 
@@ -284,21 +287,24 @@ def check_text(acc, flaw, family, text, flname, files, neutral_cache):
                     k += 1
                 bad('structure', 'page structure differs from the neutral page at event %d: %r vs %r' % (k, rest[k:k + 2], ne[k:k + 2]))
                 return
+        def shown(t):
+            # characters no charset can carry (lone surrogates) are shown backslash-escaped
+            return t.encode('utf-8', 'backslashreplace').decode('utf-8')
         if isinstance(text, str) and text.strip() and '\r' not in text and '\x00' not in text:
             pre = ''.join(page.text_in_pre)
-            if text.strip() not in pre and text not in pre:
+            if shown(text).strip() not in pre and shown(text) not in pre:
                 bad('text-missing', 'the error text is not present verbatim in the <pre> block (got %r)' % pre[:200])
                 return
         if files:
             listed = ''.join(page.li)
             for fn in files:
-                if fn and fn not in listed:
+                if fn and shown(fn) not in listed:
                     bad('file-missing', 'monitored file %r is not listed' % fn)
                     return
         if std:
             outside = ' '.join(page.text_outside)
             t, msg = std
-            if t not in outside or msg not in outside:
+            if shown(t) not in outside or shown(msg) not in outside:
                 bad('type-and-message-missing', 'standard traceback: %r / %r are not named outside the raw traceback block '
                     '(text outside: %r)' % (t, msg, ' '.join(outside.split())[:300]))
                 return
